@@ -540,6 +540,32 @@ def check_fmthistory(case):
     return None
 
 
+def check_fixed_zone_history(case):
+    """DateTimeZone.for_offset(o) is one object per offset with one id: the id must not depend on which culture was
+    current when the process-wide fixed-zone cache was first filled (fresh interpreter: first use under the culture,
+    asked again under the invariant culture, compared with a fresh interpreter that only ever used the invariant one)"""
+    import json
+    import os
+    import subprocess
+    import sys
+    name, offs = case.split(" ")[1], [int(x) for x in case.split(" ")[2:]]
+    here = os.path.dirname(os.path.abspath(__file__))
+
+    def child(n):
+        p = subprocess.run([sys.executable, os.path.join(here, "fixedid_child.py"), n] + [str(o) for o in offs],
+                           capture_output=True, text=True, timeout=120, env=dict(os.environ, PYODA_REPO=str(common_repo())))
+        if p.returncode != 0:
+            raise RuntimeError("child interpreter failed: " + p.stderr[-300:])
+        return json.loads(p.stdout)
+    a, b = child(name), child("")
+    for o in a:
+        if a[o][:2] != b[o][:2]:
+            return {"key": "fixed-zone-id-depends-on-current-culture",
+                    "what": f"DateTimeZone.for_offset({o} s).id is {a[o][0]!r} when first used under current culture {name!r} and {a[o][1]!r} when "
+                            f"asked again under the invariant culture; a process that never left the invariant culture gets {b[o][0]!r}"}
+    return None
+
+
 def common_repo():
     import common
     return common.REPO
@@ -1074,6 +1100,8 @@ def run(ctx):
             n_cult = 0
         if n_cult > 520:
             check_cases("formatinfo.cache", [f"formatinfo {ctx.scale(520, 800)} {rng.randint(0, 10**6)}"], check_formatinfo)
+            check_cases("fixed-zone.current-culture-history", ["fixedzone fi-FI 19800 20700 45 -3600", "fixedzone da-DK 1800 -12600 64799"],
+                        check_fixed_zone_history)
             check_cases("formatinfo.history", [f"fmthist {rng.randint(0, 10**6)}" for _ in range(ctx.scale(2, 12))], check_fmthistory)
             ctx.evaluations += 620
         else:
@@ -1128,7 +1156,7 @@ def gen_calhist_one(ctx, cid, length):
 
 
 CHECKS = {"barrier": None, "calhist": check_calhist, "hebhist": check_hebhist, "zonehist": check_zonehist,
-          "formatinfo": check_formatinfo, "fmthist": check_fmthistory, "provider": check_provider, "thr": check_threads}
+          "formatinfo": check_formatinfo, "fmthist": check_fmthistory, "fixedzone": check_fixed_zone_history, "provider": check_provider, "thr": check_threads}
 
 
 def replay_op(op, failure):
